@@ -240,6 +240,22 @@ def run_unit(unit, ctx):
         if not R.samples:
             R.samples.append({"point": {k: float(v) for k, v in p.items()}, "cse": cse,
                               "observed": got, "reference": {k: float(v[0]) for k, v in ref.items()}})
+    # the same symbolic model (a module-level singleton) compiled once more in this process with a slightly
+    # refined calibration (g 9.80665 -> 9.80668, a bias moved by 1e-6): the new model follows the new map
+    try:
+        cal2 = {s: (p0[s.name] * (1.0 + 3e-6) + 2e-6) for s in cal_syms}
+        model2 = python.compile(sm, cal2, config={"common_subexpression_elimination": cse})
+        for _ in range(3):
+            p, norm, kind = gen_point(rng, names)
+            for s in cal_syms:
+                p[s.name] = cal2[s]
+            res = model2.model(float(p["dt"]), model2.State(**{s.name: p[s.name] for s in sm.state}),
+                               model2.Control(**{s.name: p[s.name] for s in sm.control}))
+            _compare(R, monitors.vec_dict(res), reference(p), f"compiled:{tag}", p)
+            R.stats.inc("points_on_model_recompiled_with_refined_calibration")
+            R.evals += 1
+    except Exception as e:  # noqa: BLE001
+        R.add([K.V(K.exc_key("compile", e), f"recompiling the strapdown model with a refined calibration raised ({tag}): {K.exc_text(e)}", traceback=K.tb_text(e))])
     return R.out()
 
 
